@@ -603,22 +603,32 @@ class C06(Check):
         import itertools
 
         sc = Scope(wfn)
-        outer = None
-        for iff, fld in sc.enclosing_with_field(lp, ast.If):
-            if "_NO_RETURN" in norm(iff.test):
-                outer = iff
+        # the two recursive translations of the branches, and what follows them in the same block
+        rec_assigns = {}
+        for a_ in ast.walk(wfn):
+            if isinstance(a_, ast.Assign) and isinstance(a_.targets[0], ast.Name) and isinstance(a_.value, ast.Call) and norm(a_.value.func) == wname and a_.value.args:
+                t0 = norm(a_.value.args[0])
+                if "node.body" in t0:
+                    rec_assigns["if"] = a_
+                elif "node.orelse" in t0:
+                    rec_assigns["else"] = a_
         host = None
-        if outer is not None:
-            for p_, fld, child in sc.ancestors(outer):
+        outer = lp
+        IFV = ELV = None
+        if len(rec_assigns) == 2:
+            IFV, ELV = rec_assigns["if"].targets[0].id, rec_assigns["else"].targets[0].id
+            last = max(rec_assigns.values(), key=lambda x: x.lineno)
+            for p_, fld, child in sc.ancestors(last):
                 body_ = getattr(p_, fld, None)
-                if isinstance(body_, list) and outer in body_:
-                    host = body_[body_.index(outer):]
+                if isinstance(body_, list) and last in body_:
+                    host = body_[body_.index(last) + 1:]
+                    outer = host[0] if host else lp
                     break
         if host is None:
             self.undecided_ob("S14", MOD, wname, "conditional-value", lp, "the statements deciding what a conditional yields were not found")
         else:
             o2 = I1().block(host, [Sym()])
-            A, B = "if_expr is _NO_RETURN", "else_expr is _NO_RETURN"
+            A, B = f"{IFV} is _NO_RETURN", f"{ELV} is _NO_RETURN"
 
             def holds_(cond_txt, a, b):
                 try:
@@ -632,10 +642,15 @@ class C06(Check):
                         return a
                     if tx == B:
                         return b
-                    if tx in ("if_expr is not _NO_RETURN",):
+                    if tx == f"{IFV} is not _NO_RETURN":
                         return not a
-                    if tx in ("else_expr is not _NO_RETURN",):
+                    if tx == f"{ELV} is not _NO_RETURN":
                         return not b
+                    if isinstance(e, ast.Compare) and len(e.ops) == 1 and isinstance(e.ops[0], (ast.Eq, ast.NotEq, ast.Is, ast.IsNot)):
+                        l_, r_ = ev(e.left), ev(e.comparators[0])
+                        if l_ is None or r_ is None:
+                            return None
+                        return (l_ == r_) if isinstance(e.ops[0], (ast.Eq, ast.Is)) else (l_ != r_)
                     if isinstance(e, ast.BoolOp):
                         vals = [ev(x) for x in e.values]
                         if None in vals:
@@ -668,7 +683,7 @@ class C06(Check):
                         if ret != "_NO_RETURN":
                             cprobs.append(f"both branches fall through but the conditional yields `{ret[:50]}`")
                     elif not a and not b:
-                        if ret.replace(" ", "") not in ("_piecewise(if_expr,condition,else_expr)", "sympy.Piecewise((if_expr,condition),(else_expr,True))"):
+                        if ret.replace(" ", "") not in (f"_piecewise({IFV},condition,{ELV})", f"sympy.Piecewise(({IFV},condition),({ELV},True))"):
                             cprobs.append(f"both branches return but the conditional yields `{ret[:60]}` instead of Piecewise((if-value, condition), (else-value, True))")
                     else:
                         cprobs.append(f"one branch returns and the other falls through, and the conditional still yields `{ret[:50]}`: one of the two outcomes is lost")
